@@ -1,27 +1,44 @@
 #!/bin/bash
-# tools/reseed.sh [ids...] : re-run every stored seeded change (seeded/<id>-<k>/patch.diff) against the current /repo HEAD in a scratch
-# worktree (VERIF_REPO), one line per seed: applies? caught by its check (exit 1)?   Results: seeded/RESULTS.tsv
+# tools/reseed.sh [-j N] [ids...] : re-run every stored seeded change (seeded/<id>-<k>/patch.diff) against the current /repo HEAD, each in a
+# scratch worktree of its own (VERIF_REPO), N at a time (default 6).  One line per seed in seeded/RESULTS.tsv:
+#   defects (meta caught_by = the checks that caught it when it was made): applies? exit=1 expected
+#   behaviour-preserving refactorings (meta kind = benign): exit=0 expected
 cd "$(dirname "$0")/.."
-WT=/tmp/wt-reseed
-git -C /repo worktree remove --force $WT 2>/dev/null
-git -C /repo worktree add --detach $WT HEAD -q || exit 2
-out=seeded/RESULTS.tsv
-[ $# -eq 0 ] && : > $out
-for d in seeded/*/; do
-  s=$(basename $d); id=${s%-*}
-  if [ $# -gt 0 ] && [[ ! " $* " =~ " $id " ]]; then continue; fi
-  if ! git -C $WT apply --check ../../verif/$d/patch.diff 2>/dev/null && ! git -C $WT apply --check /verif/$d/patch.diff 2>/dev/null; then
-    echo -e "$s\tdoes-not-apply\t-" | tee -a $out; continue
+J=6
+if [ "$1" = "-j" ]; then J=$2; shift 2; fi
+ids=" $* "
+one() {
+  d=$1; s=$(basename $d); id=${s%-*}
+  WT=/tmp/wt-reseed-$s
+  git -C /repo worktree remove --force $WT 2>/dev/null
+  git -C /repo worktree add --detach $WT HEAD -q || { echo -e "$s\tmachinery\t-"; return; }
+  if ! git -C $WT apply --check /verif/$d/patch.diff 2>/dev/null; then
+    echo -e "$s\tdoes-not-apply\t-"
+  else
+    git -C $WT apply /verif/$d/patch.diff
+    cks=$(/venv/bin/python -c "import json; m=json.load(open('/verif/$d/meta.json')); print(' '.join(m.get('caught_by') or ['$id']))")
+    kind=$(/venv/bin/python -c "import json; print(json.load(open('/verif/$d/meta.json')).get('kind', 'defect'))")
+    rc=0; r=""
+    for c in $cks; do
+      r=$(VERIF_REPO=$WT VERIF_NO_EVIDENCE=1 timeout 2400 ./check $c 2>&1); rc=$?
+      [ $rc -eq 1 ] && break
+    done
+    echo -e "$s\tapplies\texit=$rc\t$kind\t$(echo "$r" | grep -m1 'what:' | cut -c1-160)"
   fi
-  git -C $WT apply /verif/$d/patch.diff
-  # the checks that caught it when it was made (its own property's check, or a neighbour's for cross-layer changes)
-  cks=$(/venv/bin/python -c "import json,sys; m=json.load(open('/verif/$d/meta.json')); print(' '.join(m.get('caught_by') or ['$id']))")
-  rc=0; r=""
-  for c in $cks; do
-    r=$(VERIF_REPO=$WT VERIF_NO_EVIDENCE=1 timeout 1500 ./check $c 2>&1); rc=$?
-    [ $rc -eq 1 ] && break
-  done
-  git -C $WT checkout -q -- .
-  echo -e "$s\tapplies\texit=$rc\t$(echo "$r" | grep -m1 'what:' | cut -c1-160)" | tee -a $out
+  git -C /repo worktree remove --force $WT 2>/dev/null
+}
+export -f one
+out=seeded/RESULTS.tsv
+todo=()
+for d in seeded/*/; do
+  d=${d%/}; s=$(basename $d); id=${s%-*}
+  [ -f $d/meta.json ] || continue
+  if [ "$ids" != "  " ] && [[ ! "$ids" =~ " $id " ]]; then continue; fi
+  todo+=($d)
 done
-git -C /repo worktree remove --force $WT
+tmp=$(mktemp)
+printf '%s\n' "${todo[@]}" | xargs -P $J -I{} bash -c 'one {}' | tee $tmp
+if [ "$ids" = "  " ]; then sort $tmp > $out; else
+  keep=$(mktemp); grep -v -F -f <(cut -f1 $tmp | sed 's/$/\t/') $out > $keep 2>/dev/null; sort $keep $tmp > $out; rm -f $keep
+fi
+rm -f $tmp
